@@ -74,6 +74,53 @@ Theorem C18_overlay_defaults_kept_when_silent :
 Proof. exact defaults_kept_when_overlays_silent. Qed.
 Print Assumptions C18_overlay_defaults_kept_when_silent.
 
+(* ---- generalised machine: the after-validators and the frozen flags are DATA regenerated from the source.
+   NOTE (audit): the ten state-machine theorems above are one-step readings of [step]; [spec_step] is the same
+   machine written flat, so C18_impl_refines_reference_machine carries little information of its own.  The
+   statements with content are the overlay theorems, the three below (which hold for EVERY validator list /
+   frozen predicate, with the as-found list refuted), and the per-run link + correspondence.  The failure kind of a
+   load is an input label predicted by the harness oracle, not derived from the data. ---- *)
+
+(* for every list of after-validators in which no raising stage follows a registration, a load that answers an
+   error leaves the system unconfigured *)
+Theorem C18_failed_load_leaves_unset_for_every_validator_list :
+  forall d vs frozen f k fk,
+    nothing_fails_after_register vs false = true ->
+    snd (step_g d vs frozen None (LoadG f k fk)) <> OkUnit ->
+    fst (step_g d vs frozen None (LoadG f k fk)) = None.
+Proof. exact failed_load_leaves_unset_general. Qed.
+Print Assumptions C18_failed_load_leaves_unset_for_every_validator_list.
+
+(* the repaired validator list meets that condition, the list as found (register, then resolve paths) does not;
+   with either list and all owners frozen the general machine is the machine of the theorems above *)
+Theorem C18_stage_lists :
+  nothing_fails_after_register repaired_stages false = true /\
+  nothing_fails_after_register found_stages false = false /\
+  (forall d (late : bool) ops s,
+     run_g d (if late then repaired_stages else found_stages) (fun _ => true) s ops = run d late s (map forget ops)).
+Proof.
+  split; [exact repaired_stages_ok|]. split; [exact found_stages_not_ok|].
+  intros d late ops s. exact (run_g_is_run d late _ eq_refl ops s).
+Qed.
+Print Assumptions C18_stage_lists.
+
+(* values cannot be changed at any nesting level PROVIDED every owning model is frozen; with one unfrozen section
+   a mutation goes through and the next read sees it *)
+Theorem C18_all_frozen_means_immutable :
+  forall d vs frozen, (forall p, frozen p = true) ->
+    forall ops s, forallb quiet_g ops = true -> fst (run_g d vs frozen s ops) = s.
+Proof. exact all_frozen_config_immutable. Qed.
+Print Assumptions C18_all_frozen_means_immutable.
+
+Theorem C18_unfrozen_section_is_mutable_refuted :
+  exists (d : tree) (frozen : list string -> bool) (c : tree) (p : list string) (v : Z),
+    frozen (owner p) = false /\
+    fst (step_g d repaired_stages frozen (Some c) (MutateG p v)) <> Some c /\
+    get p (match fst (step_g d repaired_stages frozen (Some c) (MutateG p v)) with Some t => t | None => c end)
+      = Some (Leaf v).
+Proof. exact unfrozen_section_is_mutable. Qed.
+Print Assumptions C18_unfrozen_section_is_mutable_refuted.
+
 (* the finding (F16), kept as documentation: registering the singleton before the last validator *)
 Theorem C18_path_failure_leaves_set_before_fix_refuted :
   exists d f k, fst (step d false None (Load f k FkPath)) <> None
